@@ -235,6 +235,11 @@ def run(tier, repo=None, tag="repo"):
     try:
         apply(F, Sink(rep))
         hull_rules(F, rep)
+        # N9/N10 re-establish the window invariants "since construction or reset": the induction restarts at reset() only if reset()
+        # restores the constructor state (C04's rules, for the four indicators of N9/N10)
+        import rules_c01
+        rep.rule("N11", "reset() restores the constructor state of SMA, WMA, Minimum and Maximum (C04's rules): the window invariants behind N9/N10 hold after a reset as well", 4)
+        rules_c01.reset_premise(F, rep, "N11", ["SimpleMovingAverage", "WeightedMovingAverage", "Minimum", "Maximum"])
     except symex.Unsupported as e:
         rep.violation("C09:unrecognised", "N1", "UNRECOGNISED idiom: %s" % e)
     rep.configs = ["default"]
